@@ -436,6 +436,66 @@ Fixpoint run_ops (limit : Z) (root : node) (c : cache) (ops : list hdop) : list 
   | o :: r => let '(x, c') := run_op limit root c o in x :: run_ops limit root c' r
   end.
 
+(* ---- histories over a FAMILY of related objects ----
+   Objects that own a _subkey_cache of their own ("root objects"): the initial node, every node returned by
+   obj.public_copy() (BIP32Node.public_copy builds a NEW node: fresh empty cache, nothing shared with its twin), and every
+   node re-read from its own serialization (BIP32Node.deserialize(4 bytes + obj.serialize())).  Objects cached below a root
+   object are addressed by (root number, cache path).  State: one (node, cache universe) per root object, in creation order. *)
+Definition reload (nd : node) : outcome node :=
+  do blob <- serialize nd None;
+  deserialize ([x00; x00; x00; x00] ++ blob).
+
+Inductive fop : Type :=
+| FCall (r : nat) (o : hdop)                     (* the call o on root object r (or on an object cached below it) *)
+| FPublicCopy (r : nat) (p : list ckey)          (* obj(r, p).public_copy(): a new root object *)
+| FReload (r : nat) (p : list ckey).             (* deserialize(0000 + obj(r, p).serialize()): a new root object *)
+Inductive fres : Type :=
+| FRes (x : opres)
+| FNew (x : outcome node)
+| FSkip.                                         (* no such object (yet): not a call *)
+Definition fstate : Type := list (node * cache).
+Fixpoint set_nth {A} (n : nat) (x : A) (l : list A) : list A :=
+  match l, n with
+  | [], _ => []
+  | _ :: t, O => x :: t
+  | h :: t, S k => h :: set_nth k x t
+  end.
+Definition fres_of (x : opres) : fres := match x with RSkip => FSkip | _ => FRes x end.
+Definition new_root (st : fstate) (x : outcome node) : fstate :=
+  match x with Ret k => st ++ [(k, [])] | _ => st end.
+Definition run_fop (limit : Z) (st : fstate) (o : fop) : fres * fstate :=
+  match o with
+  | FCall r op =>
+    match nth_error st r with
+    | Some (root, c) => let '(x, c') := run_op limit root c op in (fres_of x, set_nth r (root, c') st)
+    | None => (FSkip, st)
+    end
+  | FPublicCopy r p =>
+    match nth_error st r with
+    | Some (root, c) =>
+      match op_target root c p with
+      | Some nd => let x := public_copy nd in (FNew x, new_root st x)
+      | None => (FSkip, st)
+      end
+    | None => (FSkip, st)
+    end
+  | FReload r p =>
+    match nth_error st r with
+    | Some (root, c) =>
+      match op_target root c p with
+      | Some nd => let x := reload nd in (FNew x, new_root st x)
+      | None => (FSkip, st)
+      end
+    | None => (FSkip, st)
+    end
+  end.
+(* each answer together with the root objects that existed when the call was made *)
+Fixpoint run_fops (limit : Z) (st : fstate) (ops : list fop) : list (list node * fres) :=
+  match ops with
+  | [] => []
+  | o :: r => let '(x, st') := run_fop limit st o in (map fst st, x) :: run_fops limit st' r
+  end.
+
 (* ---- text form ---- *)
 (* one row of Gen/GenBip32Prefixes.v without the symbol *)
 Record bipnet : Type := mkBipnet {
